@@ -26,7 +26,7 @@
 (* build the steps.  TLC decides Eval(Path(n)) = {n} for every node of     *)
 (* every tree, and injectivity of the texts.                               *)
 (*                                                                         *)
-(* FOUR SCHEMES over the same steps (what the three code paths return):    *)
+(* FIVE SCHEMES over the same steps (what the three code paths return):    *)
 (*   FnPath   fn:path(n)                                                   *)
 (*   DocPath  node.path: "/" + steps from the (real or implied) document;  *)
 (*            sound for R1, R2, R4, R5; NOT sound for a fragment (R3), where*)
@@ -34,6 +34,8 @@
 (*            the root() form (invariant FragmentNeedsRootFn)              *)
 (*   RelPath  etree_iter_paths(root): "." + steps below the root element   *)
 (*   FragPath etree_iter_paths(root, "/") read in fragment mode (R3)       *)
+(*   BarePath etree_iter_paths(root, ""): the steps below the root element  *)
+(*            joined by "/", no prefix (context item = the root element)    *)
 (*                                                                         *)
 (* MECHANISM SIDE.  The two algorithms of the code are modelled as         *)
 (* operators over the same tree: IterPos = the top-down walk of            *)
@@ -89,6 +91,8 @@ FnPath(n)  == IF HasDocX THEN [start |-> "/", steps |-> StepsTo(n)]
 DocPath(n) == [start |-> "/", steps |-> StepsTo(n)]
 UnderRoot(n) == RootCfg \notin {"R4", "R5"} /\ n # 0 /\ TopAnc(n) = RootElem
 RelPath(n)  == IF UnderRoot(n) THEN [start |-> ".", steps |-> Tail(StepsTo(n))] ELSE NA
+BarePath(n) == IF UnderRoot(n) /\ n # RootElem   \* etree_iter_paths(root, ""): relative, no leading "./"
+              THEN [start |-> "", steps |-> Tail(StepsTo(n))] ELSE NA
 FragPath(n) == IF RootCfg = "R3" /\ n # 1    \* "/" alone is the caller's argument, and undefined for a parentless root
               THEN [start |-> "/", steps |-> Tail(StepsTo(n))] ELSE NA
 
@@ -110,11 +114,12 @@ Text(p) ==
     [] p.start = "/"      -> IF p.steps = <<>> THEN <<"/">> ELSE JoinSteps(p.steps)
     [] p.start = "root()" -> <<"Q{", FN, "}root()">> \o JoinSteps(p.steps)
     [] p.start = "."      -> <<".">> \o JoinSteps(p.steps)
+    [] p.start = ""       -> Tail(JoinSteps(p.steps))
 
 Eval(p) == EvalSteps(StartSet(p.start), p.steps)
 
 TextsOf(n, last) == [fn   |-> Text(FnPath(n)),  doc  |-> Text(DocPath(n)),
-                     rel  |-> Text(RelPath(n)), frag |-> Text(FragPath(n)),
+                     rel  |-> Text(RelPath(n)), frag |-> Text(FragPath(n)), bare |-> Text(BarePath(n)),
                      step |-> last]
 
 ---------------------------------------------------------------------------
@@ -181,6 +186,7 @@ Covered == \A m \in Below(cur) : Sel(cur, StepOf(m)) = {m}
 SoundFn   == Eval(FnPath(cur)) = {cur}
 SoundDoc  == RootCfg # "R3" => Eval(DocPath(cur)) = {cur}
 SoundRel  == UnderRoot(cur) => Eval(RelPath(cur)) = {cur}
+SoundBare == BarePath(cur) # NA => Eval(BarePath(cur)) = {cur}
 SoundFrag == (RootCfg = "R3" /\ cur # 1) => Eval(FragPath(cur)) = {cur}
 FragmentNeedsRootFn == RootCfg = "R3" => Eval(DocPath(1)) # {1}
 
@@ -205,7 +211,7 @@ PosIsXDMPredicate ==
 
 IterAgreesCur == (cur \in 1..N /\ kind[cur] \in ElemK \cup PIK \cup {"c"}) => IterPos(cur) = PosOf(cur)
 
-Laws == /\ Covered /\ SoundFn /\ SoundDoc /\ SoundRel /\ SoundFrag /\ FragmentNeedsRootFn
+Laws == /\ Covered /\ SoundFn /\ SoundDoc /\ SoundRel /\ SoundBare /\ SoundFrag /\ FragmentNeedsRootFn
         /\ Injective /\ WalkIsPath /\ StepSelectsOne /\ PosIsXDMPredicate /\ IterAgreesCur
 
 (* refuted on purpose in the "impl" configuration (get_child_position as    *)
